@@ -1,4 +1,5 @@
 import time
+import os
 
 from . import core
 from .core import C, ONE, norm_under_pc, norm_deep, pnot, relevant_pc, solve, peval
@@ -74,7 +75,7 @@ def prove(cond, name):
     import random
     from .core import base_support, peval as _pe, Undecided as core_Undecided, unpoison
     rnd = random.Random(len(C.pc) * 7919 + len(p))
-    sup = [a for a in base_support(rel + [p]) if isinstance(a, int)]
+    sup = [a for a in base_support(rel + [p], closed=True) if isinstance(a, int)]
     free = [a for a in sup if a not in C.subst]
     for _ in range(48):
         env = {a: rnd.getrandbits(1) for a in free}
@@ -95,7 +96,23 @@ def prove(cond, name):
     if st == "unsat":
         LOG.append((name, be, time.time() - t0))
         return be
-    raise Refuted(name, complete_model(env, rel))
+    full = complete_model(env, rel)
+    # a counter-model must make the clause false and every relevant constraint true when evaluated point-wise; a model that
+    # does not is a defect of the back end that produced it: the obligation is undecided, never refuted on its word
+    try:
+        # gate atoms and eliminated atoms are recomputed from their definitions over the input atoms of the model
+        chk = {a: v for a, v in full.items() if not isinstance(a, int) or (a not in C.gates and a not in C.subst)}
+        ok_model = not _pe(p, chk) and all(_pe(q, chk) for q in rel)
+        if not ok_model and os.environ.get("PYVC_DEBUG"):
+            print("  differing atoms", [(a, full[a], chk[a], C.gates.get(a, ("subst",))[0]) for a in chk if a in full and full[a] != chk[a]][:8])
+    except core_Undecided as e:
+        unpoison(e)
+        ok_model = True  # (integer-valued atoms without a native evaluator: the native replay is the judge)
+    if not ok_model:
+        if os.environ.get("PYVC_DEBUG"):
+            print("INCONSISTENT MODEL from back end", be, "clause", name, "clause value", _pe(p, dict(full)), "violated constraints", [i for i, q in enumerate(rel) if not _pe(q, dict(full))][:5], "of", len(rel))
+        raise core_Undecided("back end %s returned a model that does not satisfy the query (%s)" % (be, name))
+    raise Refuted(name, full)
 
 
 def concretise(x, env):
